@@ -102,6 +102,18 @@ def symbols(t) -> list[str]:
     return out
 
 
+def rename(t, mapping: dict[str, str]):
+    """The same tree over other symbol names (``sym`` and ``usym`` leaves; everything else is kept)."""
+    k = t[0]
+    if k == "sym":
+        return ["sym", mapping.get(t[1], t[1])]
+    if k == "usym":
+        return ["usym", mapping.get(t[1], t[1]), t[2]]
+    if k == "int":
+        return t
+    return [k] + [rename(c, mapping) for c in children(t)]
+
+
 def n_ops(t) -> int:
     return 0 if is_leaf(t) else 1 + sum(n_ops(c) for c in children(t))
 
